@@ -315,11 +315,15 @@ class PteraTransformer(NodeTransformer):
     def _set(self, name):
         return ast.Name(id=self.lib[name][0], ctx=ast.Store())
 
-    def _interact(self, *args, fullname=None):
+    def _interact(self, *args, fullname=None, force=False):
         varname, key, ann, value, overridable = args
-        if not self.should_instrument(varname, ann) and not (
-            # x.attr = ... is also selectable as "x.attr"
-            fullname and self.should_instrument(fullname, ann)
+        if (
+            not force
+            and not self.should_instrument(varname, ann)
+            and not (
+                # x.attr = ... is also selectable as "x.attr"
+                fullname and self.should_instrument(fullname, ann)
+            )
         ):
             return value if isinstance(value, ast.AST) else ast.Constant(value)
 
@@ -477,7 +481,13 @@ class PteraTransformer(NodeTransformer):
         if value_args is None:
             new_value = value
         else:
-            new_value = self._interact(*value_args, fullname=fullname)
+            # A bare declaration (``x: int``) must be provided by an overlay
+            # or fail: it is an interaction whatever is being instrumented
+            new_value = self._interact(
+                *value_args,
+                fullname=fullname,
+                force=value is None and isinstance(target, ast.Name),
+            )
         if isinstance(target, str):
             assert not expression
             return [ast.Expr(new_value)]
